@@ -24,6 +24,7 @@ def spaces(tier):
             dict(family='chain3', size=3, level=0, cfg='K0', t0=['empty'], mut='outputs'),
             dict(family='chain3', size=3, level=1, cfg='K0', t0=['empty'], mut='none'),
             dict(family='if', size=2, level=0, cfg='K0', t0=['empty', 'file_i', 'dir_d_j'], mut='all'),
+            dict(family='pairs', size=1, level=1, cfg='K0', t0=['empty'], mut='none'),
             dict(size=1, level=0, cfg='K0', t0=['empty', 'full', 'dir_d_j', 'file_d'], mut='all'),
             dict(size=1, level=1, cfg='K0', t0=['empty', 'full'], mut='all'),
             dict(size=1, level=2, cfg='K1', t0=['empty', 'dir_d_e'], mut='rel'),
@@ -37,6 +38,8 @@ def spaces(tier):
         for l in (0, 1) for c in ('K0', 'K1')
     ] + [
         dict(family='if', size=2, level=l, cfg='K0', t0=list(gen.T0S), mut='all') for l in (0, 1)
+    ] + [
+        dict(family='pairs', size=1, level=l, cfg='K0', t0=list(gen.T0S), mut='none') for l in (0, 1)
     ] + [
         dict(size=1, level=l, cfg=c, t0=list(gen.T0S), mut='all')
         for l in (0, 1, 2, 3) for c in ('K0', 'K1')
@@ -53,12 +56,58 @@ def spaces(tier):
 def tasks(tier, seed):
     out = []
     for si, sp in enumerate(spaces(tier)):
-        n = NSLICES if sp['size'] >= 2 else 16
+        n = NSLICES if (sp['size'] >= 2 or sp.get('family') == 'pairs') else 16
         if sp['size'] >= 3:
             n = 512
         for i in range(n):
             out.append({'tier': tier, 'space': si, 'slice': [i, n]})
     return out
+
+
+def pair_programs(level):
+    """Build P, then build a different program Q: file <-> directory swaps, other function for the
+    same path, other arguments, other comparison mode, other function version of the same name."""
+    A = list(gen.nodes(idx=1))
+    extra = []
+    for p in ('a', 'd/x'):
+        base = {'k': 'bf', 'p': p, 'mode': 'ok', 'catch': True, 'ch': []}
+        extra += [dict(base, fn='F'), dict(base, fn='G'), dict(base, fn='F', args=[1]), dict(base, fn='F', args=[1.0]),
+                  dict(base, fn='F', args=[True]), dict(base, fn='F', cmp='HASH'), dict(base, fn='F', kwargs={'k': 1})]
+    sbase = {'k': 'sb', 'mode': 'ok', 'catch': True, 'ch': []}
+    extra += [dict(sbase, fn='S', args=[1]), dict(sbase, fn='S', args=[True]), dict(sbase, fn='T', args=[1]),
+              dict(sbase, fn='S', args=[], kwargs={'a': 1}), dict(sbase, fn='S', args=[[1]]), dict(sbase, fn='S', args=[[1.0]])]
+    for a in A:
+        for b in A:
+            if a is not b:
+                yield {'level': level, 'root': [dict(a)]}, {'level': level, 'root': [dict(b)]}
+    for a in extra:
+        for b in extra:
+            if a is not b:
+                yield {'level': level, 'root': [dict(a)]}, {'level': level, 'root': [dict(b)]}
+
+
+def work_pairs(ctx, sp, i, n, acc, world):
+    capped = False
+    for pi, (P, Q) in enumerate(pair_programs(sp['level'])):
+        if pi % n != i:
+            continue
+        if ctx.deadline and time.time() > ctx.deadline:
+            capped = True
+            break
+        acc.count('programs')
+        for t0 in sp['t0']:
+            world.start()
+            for m in gen.T0S[t0]:
+                world.mutate(m)
+            rs = []
+            for prog in (P, Q, Q, P):
+                r = world.build(prog)
+                rs.append(r)
+                if acc.take(world, r) or world.diverged:
+                    break
+            acc.count('histories')
+            acc.outcome([outcome_sig(r) for r in rs])
+    return acc.result(world, capped)
 
 
 def work(ctx, task):
@@ -68,6 +117,8 @@ def work(ctx, task):
     world = World(ctx.sb, ctx.fb, sp['cfg'])
     full = mutation_alphabet()
     capped = False
+    if sp.get('family') == 'pairs':
+        return work_pairs(ctx, sp, i, n, acc, world)
     for pi, prog in enumerate(gen.family(sp)):
         if pi % n != i:
             continue
